@@ -219,6 +219,48 @@ func RunConc(env *Env, prefix, in, out string) error {
 				_, loc := serve("POST", "/chargingdata", createBody(e.U, 100+i))
 				refs[e.U+"|"+e.S] = refOf(loc)
 			}
+			// a consumer that reacts to the re-authorisation notification at once: it sends an update for the subscriber's session
+			// from inside its notification handler and answers the notification only when that update has been answered (or
+			// after 6 s)
+			reauth := map[string]any{"asked": false, "status": 0, "ms": int64(0), "timeout": false}
+			env.nmu.Lock()
+			env.SinkHook = nil
+			env.nmu.Unlock()
+			for _, r := range c.Mix {
+				if r.Kind == "recharge" && r.Shape == "reauth" {
+					u0 := r.U
+					var once sync.Once
+					hook := func(Notif) {
+						once.Do(func() {
+							var ref string
+							for k, v := range refs {
+								if strings.HasPrefix(k, u0+"|") {
+									ref = v
+								}
+							}
+							t0 := time.Now()
+							d := make(chan int, 1)
+							go func() {
+								st, _ := serve("POST", "/chargingdata/"+ref+"/update", usageBody(u0, 0, 9000))
+								d <- st
+							}()
+							reauth["asked"] = true
+							select {
+							case st := <-d:
+								reauth["status"] = st
+								reauth["ref"] = ref
+								reauth["u"] = u0
+							case <-time.After(6 * time.Second):
+								reauth["timeout"] = true
+							}
+							reauth["ms"] = time.Since(t0).Milliseconds()
+						})
+					}
+					env.nmu.Lock()
+					env.SinkHook = hook
+					env.nmu.Unlock()
+				}
+			}
 			sched := &concSched{threads: map[uint64]int{}, parked: map[int]string{}, gates: map[int]chan struct{}{}, gating: c.Gated,
 				ueIDs: map[any]int{}, arrived: make(chan int, 64)}
 			verifhook.Sink = sched.sink
@@ -451,6 +493,11 @@ func RunConc(env *Env, prefix, in, out string) error {
 				}
 				results2 = append(results2, r)
 			}
+			if reauth["asked"] == true && reauth["status"] == 200 {
+				// the consumer's own update is a request like the others: its container is expected in the record
+				results2 = append(results2, map[string]any{"t": 0, "kind": "update", "u": reauth["u"], "s": "", "status": 200, "ref": reauth["ref"],
+					"lsn": 9000, "used": 0, "rg": ""})
+			}
 			sched.mu.Lock()
 			evs := sched.events
 			sched.mu.Unlock()
@@ -459,7 +506,7 @@ func RunConc(env *Env, prefix, in, out string) error {
 			}
 			b, _ := json.Marshal(map[string]any{"trace": c.ID, "seq": seq, "action": "conc", "gated": c.Gated, "mix": c.Mix, "existing": c.Existing,
 				"events": evs, "results": results2, "follow": follow, "quiescent": q, "missed": missed, "unreplayable": unreplayable,
-				"credited": 1000000, "cost": 2, "notifRgs": notifRgs, "rtypes": rtypes})
+				"credited": 1000000, "cost": 2, "notifRgs": notifRgs, "rtypes": rtypes, "reauth": reauth})
 			_, _ = w.Write(b)
 			_ = w.WriteByte('\n')
 			_ = w.Flush()
